@@ -6,6 +6,9 @@ use gluon_parser::infix::{reparse, Error, Fixity, OpMeta, OpTable};
 use gv::{quote, Args, Out};
 use std::marker::PhantomData;
 
+#[path = "c08/textlevel.rs"]
+mod textlevel;
+
 pub struct MockEnv<T>(PhantomData<T>);
 impl<T: AsRef<str>> DisplayEnv for MockEnv<T> {
     type Ident = T;
@@ -288,5 +291,8 @@ fn main() {
             .collect();
         one_chain(&mut out, &ops);
     }
+    // text level: chains through the real grammar + layout + Reparser, and the style round trip
+    textlevel::chains(&mut out, &mut rng, if args.thorough() { 20000 } else { 3000 });
+    textlevel::roundtrip(&mut out, &mut rng, if args.thorough() { 3000 } else { 300 });
     out.finish();
 }
